@@ -800,3 +800,56 @@ Proof.
   destruct (trim_left s); [cbn; lia|]. destruct (parse_message s) as [[m rest]| |]; try (cbn; lia).
   specialize (IH rest). destruct (stream_msgs f rest) as [l0 b0]. cbn [fst List.length] in *. lia.
 Qed.
+
+(* ------------------------------------------------------------------ non-vacuity *)
+Definition routed_request : bytes :=
+  lines ["OPTIONS sip:bob@example.net SIP/2.0"; "Via: SIP/2.0/UDP 10.0.0.9:5070;branch=z9hG4bK1";
+         "Route: <sip:10.0.0.7:5062;lr>"; "CSeq: 1 OPTIONS"; "Content-Length: 0"; ""]%string.
+
+Example C08_ex_undecodable : undecodable (s2b "hello") /\ garbage (s2b "hello") /\
+  garbage (lines ["INVITE sip:a@h SIP/2.0"; "Content-Length: -1"; ""]%string).
+Proof.
+  split; [intros m r; vm_compute; discriminate|].
+  split; (split; [vm_compute; discriminate|intros m r; vm_compute; discriminate]).
+Qed.
+Example C08_ex_chunk : exists m rest rest1,
+  parse_message (bracket_request ++ s2b "hello") = Ok (m, rest) /\ garbage rest /\
+  parse_message bracket_request = Ok (m, rest1) /\ trim_left rest1 = [].
+Proof.
+  eexists; eexists; eexists. split; [vm_compute; reflexivity|].
+  split; [split; [vm_compute; discriminate|intros m r; vm_compute; discriminate]|].
+  split; vm_compute; reflexivity.
+Qed.
+(* a routed datagram is relayed (one output, bound attained); the same run with an undecodable
+   datagram in the middle relays the same *)
+Example C08_ex_run :
+  let ev := (0%Z, s2b "z9hG4bKa", EvUdp 0 (s2b "10.0.0.9") 5070%Z routed_request) in
+  let bad := (1%Z, s2b "z9hG4bKb", EvUdp 0 (s2b "10.0.0.66") 5070%Z (s2b "hello")) in
+  exists st' o, run_steps all_fixed wit_cfg (init_state wit_cfg 0%Z []) [ev; ev] = Ok (st', [[o]; [o]]) /\
+                fst o = DUdp (s2b "10.0.0.7") 5062%Z /\
+                run_steps all_fixed wit_cfg (init_state wit_cfg 0%Z []) [ev; bad; ev] = Ok (st', [[o]; []; [o]]) /\
+                msgs_in (snd ev) = 1.
+Proof.
+  cbv zeta. eexists; eexists. split; [vm_compute; reflexivity|].
+  split; [reflexivity|]. split; vm_compute; reflexivity.
+Qed.
+Example C08_ex_live :
+  exists st1 o, proxy_step all_fixed wit_cfg 0%Z (s2b "z9hG4bKa") (init_state wit_cfg 0%Z []) (EvTcpAccept 0 (s2b "10.0.0.9") 40000%Z) = Ok (st1, o) /\
+             tcp_live wit_cfg st1 0 = true.
+Proof. eexists; eexists. split; vm_compute; reflexivity. Qed.
+
+Print Assumptions C08_process_message_ok.
+Print Assumptions C08_tcp_messages_ok.
+Print Assumptions C08_no_panic.
+Print Assumptions C08_no_panic_gen.
+Print Assumptions C08_never_err.
+Print Assumptions C08_legacy_refuted.
+Print Assumptions C08_discard_udp.
+Print Assumptions C08_discard_tcp.
+Print Assumptions C08_garbage_is_close.
+Print Assumptions C08_tcp_garbage_after.
+Print Assumptions C08_discard_tcp_after.
+Print Assumptions C08_serves_after.
+Print Assumptions C08_serves_after_tcp.
+Print Assumptions C08_output_bounded.
+Print Assumptions nopanic_handle_dialog.
